@@ -6,7 +6,7 @@ from engine.cfg import cfg_of
 from engine.cond import CondCtx, Lit, satisfiable
 from engine.defuse import defuse_of, targets_of, attr_accesses
 from engine.fold import UNKNOWN
-from .common import (calls_named, package_calls, stmt_effects, node_lits, resolve_arg, enclosing_trys)
+from .common import (calls_named, package_calls, stmt_effects, node_lits, resolve_arg, enclosing_trys, known_absent)
 from . import c01
 
 EXPLANATION = (
@@ -456,8 +456,8 @@ def r8(ctx):
         key = norm(n.slice)
         pool = norm(n.value)
         conn = pool[:-len("temp_connections")] + "connections"
-        not_temp = any(l.kind == "atom" and not l.positive and l.subject == "%s in %s" % (key, pool) for l in lits)
-        not_conn = any(l.kind == "atom" and not l.positive and l.subject == "%s in %s" % (key, conn) for l in lits)
+        not_temp = known_absent(f, cfg, cc, n, key, pool)
+        not_conn = known_absent(f, cfg, cc, n, key, conn)
         ctx.check(not_temp, "C02.R8", f, n, "a pending handshake is registered only for an address with no pending handshake "
                   "(a duplicated hello cannot replace the key and token the client already adopted)", witness=[repr(l) for l in lits], line=n.lineno)
         ctx.check(not_conn, "C02.R8", f, n, "a pending handshake is registered only for an address that is not connected",
